@@ -1,7 +1,8 @@
 // C17: packages cannot observe or mutate each other's values.
 // Generated build_defs files export nested lists and dicts, functions returning list literals and functions with
 // list defaults; two generated packages import them and index / alias / mutate / sort / reverse / + / += what they
-// imported. All of it runs on ONE real interpreter per scenario run (shared subinclude cache): package B alone,
+// imported (including the two shapes repaired in /repo 7aeabfa, FROZEN + [x] into spare capacity and FROZEN + [],
+// which stay as regression streams). All of it runs on ONE real interpreter per scenario run (shared subinclude cache): package B alone,
 // A then B, B then A, and A and B concurrently. Oracle: B's globals do not depend on A, and nothing a package
 // computed changes when the other package runs afterwards.
 package main
@@ -37,9 +38,13 @@ func ints(xs ...int) *aspgen.Val {
 
 const (
 	tagNested = "nested-list-mutable-through-frozen-parent"
-	tagSpare  = "frozen-list-spare-capacity-shared"
 	tagConst  = "function-constant-list-shared"
 	tagDflt   = "function-default-list-shared"
+	// the two classes repaired in /repo 7aeabfa (pyList.Operator(Add) = l.concat(l2): always a new array). The
+	// scenarios stay as regression streams: they must not interfere any more; if the behaviour returns, the
+	// interference is reported under these class names (which are not known findings).
+	tagSpare     = "frozen-list-spare-capacity-shared"
+	tagPlusEmpty = "frozen-list-plus-empty-aliases-array"
 )
 
 func genDefs(r *lib.Rng) aspgen.Prog {
@@ -59,6 +64,7 @@ func genDefs(r *lib.Rng) aspgen.Prog {
 		aspgen.Assign("D", E(aspgen.Dict([]string{"k", "n"}, []*aspgen.Expr{inner(2), E(aspgen.Dict([]string{"m"}, []*aspgen.Expr{inner(1)}))}))),
 		aspgen.Def("mk", nil, aspgen.Return(E(ints(r.Range(0, 9), 2, 3)))),
 		aspgen.Def("dflt", []aspgen.Arg{{Name: "q", E: E(ints(7, 8))}}, aspgen.Return(IdE("q"))),
+		aspgen.Def("ext", []aspgen.Arg{{Name: "l"}, {Name: "x"}}, aspgen.Return(E(aspgen.Ident("l"), Bin("+", aspgen.List(IdE("x")))))),
 		aspgen.Assign("N", IntE(r.Range(0, 9))),
 	}
 }
@@ -66,7 +72,27 @@ func genDefs(r *lib.Rng) aspgen.Prog {
 func genAction(r *lib.Rng, pkg string, k int) action {
 	v := func(s string) string { return fmt.Sprintf("%s_%s%d", pkg, s, k) }
 	val := IntE(r.Range(10, 99))
-	switch r.Intn(20) {
+	switch r.Intn(27) {
+	case 20, 21:
+		// FROZEN + [] must be a new list: writing to it must not show in the exported one
+		src := lib.Pick(r, []*aspgen.Val{aspgen.Ident("FLAT"), aspgen.Ident("FILT"), aspgen.Index(aspgen.Ident("D"), StrE("k"))})
+		return action{tagPlusEmpty, []*aspgen.Stmt{aspgen.Assign(v("e"), E(src, Bin("+", aspgen.List()))), aspgen.IdxAssign(v("e"), IntE(0), val)}, false}
+	case 22:
+		// FLAT += [] rebinds the package's own name to FLAT + []
+		return action{tagPlusEmpty, []*aspgen.Stmt{aspgen.Aug("FLAT", E(aspgen.List())), aspgen.IdxAssign("FLAT", IntE(0), val)}, false}
+	case 23:
+		// + of two frozen lists, and a frozen list inside a list of the package's own
+		return action{"", []*aspgen.Stmt{aspgen.Assign(v("u"), E(aspgen.Ident("FLAT"), Bin("+", aspgen.Ident("FLAT")))), aspgen.IdxAssign(v("u"), IntE(0), val),
+			aspgen.Assign(v("t"), E(aspgen.List(IdE("FLAT"), IdE("D")))), aspgen.IdxAssign(v("t"), IntE(0), val)}, false}
+	case 24:
+		// through a function of the subincluded file that adds to its argument
+		return action{"", []*aspgen.Stmt{aspgen.Assign(v("h"), E(aspgen.Call("ext", IdE("FLAT"), val))), aspgen.IdxAssign(v("h"), IntE(0), val)}, false}
+	case 25:
+		// a comprehension over the nested export that adds to every inner list: new lists, the inner ones stay
+		return action{"", []*aspgen.Stmt{aspgen.Assign(v("cc"), E(aspgen.Comp(E(aspgen.Ident("e"), Bin("+", aspgen.List(val))), []string{"e"}, IdE("NESTED"), nil)))}, false}
+	case 26:
+		// + [] of an inner (unfrozen) list of the nested export and a write to the result: a copy since the fix
+		return action{tagPlusEmpty, []*aspgen.Stmt{aspgen.Assign(v("ie"), E(aspgen.Index(aspgen.Ident("NESTED"), IntE(r.Range(0, 1))), Bin("+", aspgen.List()))), aspgen.IdxAssign(v("ie"), IntE(0), val)}, false}
 	case 0, 1:
 		return action{tagNested, []*aspgen.Stmt{aspgen.Assign(v("i"), E(aspgen.Index(aspgen.Ident("NESTED"), IntE(r.Range(0, 1))))), aspgen.IdxAssign(v("i"), IntE(0), val)}, false}
 	case 2:
@@ -179,7 +205,7 @@ func main() {
 		c.Model("From PlzV Require Import Model.C16_Syntax Model.C16_Eval Model.C16 Model.C18.", "C18.case", "C18.check")
 		c.Rule("scenarios = a generated build_defs file (nested list, flat list, filtered comprehension, dict with list and dict members, a function returning a list " +
 			"literal, a function with a list default) and two generated packages of 1-5 actions each on what they import (alias + index assignment, loops over nested " +
-			"lists, sorted/reversed of inner lists, +, +=, dict members, direct assignment that must fail), each followed by reads of everything; run on the real " +
+			"lists, sorted/reversed of inner lists, +, +=, + [] and += [] followed by a write, + through a function of the defs file, dict members, direct assignment that must fail), each followed by reads of everything; run on the real " +
 			"interpreter as B alone, A then B, B then A, and concurrently. distinct = distinct scenario texts; non-trivial = package A contains a write")
 		n := c.Scale(45, 1200)
 		for i := 0; i < n; i++ {
@@ -197,8 +223,8 @@ func main() {
 				return acts
 			}
 			A, B := mk("a", false), mk("b", true)
-			if i < 4 {
-				// the four known leaks, once each in their smallest form, so that every run reproduces them
+			if i < 5 {
+				// the three known leaks and the two repaired ones, once each in their smallest form, so that every run exercises them
 				val := IntE(90 + i)
 				forced := func(pkg string) action {
 					v := pkg + "_w"
@@ -209,6 +235,8 @@ func main() {
 						return action{tagSpare, []*aspgen.Stmt{aspgen.Assign(v, E(aspgen.Ident("FILT"), Bin("+", aspgen.List(IntE(90+len(pkg)+int(pkg[0]))))))}, false}
 					case 2:
 						return action{tagConst, []*aspgen.Stmt{aspgen.Assign(v, E(aspgen.Call("mk"))), aspgen.IdxAssign(v, IntE(0), val)}, false}
+					case 4:
+						return action{tagPlusEmpty, []*aspgen.Stmt{aspgen.Assign(v, E(aspgen.Ident("FLAT"), Bin("+", aspgen.List()))), aspgen.IdxAssign(v, IntE(0), val)}, false}
 					default:
 						return action{tagDflt, []*aspgen.Stmt{aspgen.Assign(v, E(aspgen.Call("dflt"))), aspgen.IdxAssign(v, IntE(0), val)}, false}
 					}
